@@ -41,7 +41,9 @@ CHECKS = {
                 'every run: 400+ random histories on real ReducedErrorModel / ReducedMechanisticModel / '
                 'ReducedPopulationModel / LogLikelihood / PredictiveModel objects; reported names, counts and the full '
                 'vector recorded by the wrapped model are compared by vm_compute with the code-level model, and every '
-                'evaluation must be bit-identical to the unfixed object at the substituted vector.',
+                'evaluation must be bit-identical to the unfixed object at the substituted vector. Renaming the free '
+                'parameters of a reduced population model is modelled too (fixed parameters keep their published names; '
+                'the pre-fix code is refuted) and compared by vm_compute with the names chi publishes.',
         'note': 'Trusted: Coq kernel + stdlib, no axioms (Print Assumptions: closed under the global context); model '
                 'Model/Fixing.v hand-written; harness doubles (recording wrappers) and Python dict semantics; the problem '
                 'controller\'s fix_parameters is covered only through the LogLikelihood / population wrappers it delegates to.',
@@ -91,7 +93,10 @@ CHECKS = {
                 'with non-involutive orders, missing values) certified by CoqInterval; padding / permutation / time '
                 're-ordering invariance checked directly. The gradients of all five filters are proved to be the derivatives '
                 '(log-normal ones by the chain rule through the cell of the logarithms; KDE ones through a bandwidth that '
-                'depends on every simulated value; the mixture one at block level).',
+                'depends on every simulated value; the mixture one at block level). Model/FilterOrder.v: for every nesting '
+                'of composed filters, each with a time order of its own, the argsort / fancy-index / slice bookkeeping '
+                'scores simulated time j against the data column presented at j and returns the sensitivities in input '
+                'order (proved; tied by vm_compute through chi\'s own ComposedPopulationFilter over recording leaf filters).',
         'note': 'Trusted: Coq kernel, stdlib, Coquelicot, CoqInterval, ' + STD_AXIOMS + '; hand-written Model/Filters.v; the '
                 'harness maps chi\'s (individual, observable, time) arrays with NaNs and the time order onto cells; '
                 'two fix: commits (log-normal KDE Jacobian, docstring) precede this check.',
@@ -139,7 +144,12 @@ CHECKS = {
                 'HierarchicalLogPosterior objects compared by vm_compute (thorough: all ordered pairs of 40 sub-model '
                 'variants x 3 population sizes); evaluation at a vector of the reported length returns a gradient of '
                 'that length; chi\'s actual name strings are checked for distinctness and order; random '
-                'reconfiguration histories on population models, reduced mechanistic models and likelihoods.',
+                'reconfiguration histories on population models, reduced mechanistic models and likelihoods. '
+                'Model/Nested.v: compositions of compositions report what the flat composition of their leaves reports, '
+                'their hierarchical sensitivities are assembled without error into the flat layout for every nesting, and '
+                'every object below a composition works with the number of individuals the composition reports, also '
+                'after set_n_ids (proved; the code before two fix commits is refuted by witnesses; tied by vm_compute on '
+                'random nestings: n_ids() of every object, reports, tagged reduce=True sensitivities).',
         'note': 'Trusted: Coq kernel + stdlib, no axioms; Model/Layout.v hand-written; the injectivity premises of '
                 'C17_names_unique are hypotheses of the theorem (chi\'s concrete strings are checked by the harness, not '
                 'proved); controllers and predictive models are covered through the objects they delegate to (C14/C15).',
@@ -327,7 +337,10 @@ CHECKS = {
                 'transform of draws replayed from the seed\'s primitive stream (non-centred, covariate-shifted, pooled; '
                 'n_samples different from the stored n_ids), covariate rows, one complete prior draw per ID, joint '
                 'posterior draws of the selected individual with mixed individual- and population-level variables, '
-                'averaged-model frequencies within 5 sigma of the weights and IDs 1..n.',
+                'averaged-model frequencies within 5 sigma of the weights and IDs 1..n. param_map is one lookup per model '
+                'parameter name, independent of the dictionary order (chained replacement refuted); the model owning each '
+                'sample ID of an averaged model is a partition with count_occ IDs per model for every draw vector '
+                '(numpy.unique counts refuted); both tied by vm_compute (stored names; draws replayed from the seed).',
         'note': 'Partial: the laws of the draws are C06 and the streams C16; that a table value is "distributed as the '
                 'error model around the mechanistic output" is reduced to the error model\'s sample being called with that '
                 'output and those parameters (recorded), not proved as a distributional statement. Heterogeneous '
